@@ -114,6 +114,10 @@ class Session:
             return -1
 
 
+class _LeaveBlock(Exception):
+    pass
+
+
 class RegReplay:
     """One history on real workers.  job = {id, h: [[op, w, a, b]...], kinds: {w: kind}, modes: {step: 'finish'|'terminate'}}"""
 
@@ -243,11 +247,15 @@ class RegReplay:
         self.reglens.append(self.ses.reglen())
         self.calls.append({'t': t, 'y': y, 'lb': lb, 'la': la, 'retained': self.ses.retained(), 'died': 0})
 
-    def auto(self, step):
+    def auto(self, step, exc=None):
         raised = 'none'
         try:
             with self.ses.autoclose():
-                pass
+                if exc is not None:
+                    raise exc        # the block is left through an exception raised inside it
+        except (_LeaveBlock, KeyboardInterrupt) as e:
+            if e is not exc:
+                raised = type(e).__name__
         except Exception as e:  # noqa - leaving the block raised: an observation
             raised = type(e).__name__
             # soft diagnosis for the signature: a dead thread worker still registered whose thread id was re-used by this thread
@@ -296,6 +304,8 @@ class RegReplay:
                     self.ac(w)
                 elif op == 'auto':
                     self.auto(n)
+                elif op == 'autoexc':
+                    self.auto(n, _LeaveBlock('left the block') if n % 2 else KeyboardInterrupt())
                 else:
                     raise MachineryError('unknown op %r' % (op,))
             self.finished = True
@@ -644,6 +654,84 @@ def fresh_thread(job, ses, tmp):
     return {'id': job['id'], 'rec': rec, 'notes': notes, 'finished': done['ok'], 'reglens': [ses.reglen()], 'restarted': []}
 
 
+def dead_frontend(job, ses, tmp):
+    """A persistent remote worker whose frontend thread has died (the target returned something the parent cannot
+    rebuild) while its remote child keeps serving: the worker is alive as long as its process is - it must be listed
+    by active_children() and closed by autoclose.  Liveness is read from the OS (pid + start time), not from the worker."""
+    notes, calls, autos = [], [], []
+    finished = False
+    pids = []
+
+    def alive(p):
+        return p[1] is not None and _proc_start(p[0]) == p[1] and _os_alive_pid(p[0])
+
+    def body():
+        nonlocal finished
+        try:
+            ses.need_server()
+            name = 'df-%s' % job['id']
+            w = ses.cls[('remote', True)](ses.targets.bad_result, name=name, host=ses.addr)
+            child = (w.pid, _proc_start(w.pid))
+            pids.append(child)
+            front = _find_thread(name='%s (remote front)' % name)
+            others = {}
+            for k in range(job.get('others', 0)):
+                ses.nflag += 1
+                flag = os.path.join(tmp, 'dflag-%d-%d' % (os.getpid(), ses.nflag))
+                others[2 + k] = (ses.cls[('thread', False)](ses.targets.sleeper, args=[flag], name='df-%s-%d' % (job['id'], 2 + k)), flag)
+            w.enqueue('@badresult')
+            t0 = time.time()
+            while front is not None and front.is_alive() and time.time() - t0 < 5:
+                time.sleep(0.002)
+            if front is None or front.is_alive():
+                notes.append('the frontend thread did not die: scenario not established')
+            if job.get('held', True) is False:
+                ref = weakref.ref(w)
+                del w
+                gc.collect()
+            for rnd in range(2):
+                live = ([1] if alive(child) else []) + sorted(others)
+                y = []
+                for o in ses.Worker.active_children():
+                    y.append(1 if getattr(o, 'name', None) == name else next((k for k, (x, _f) in others.items() if x is o), 900))
+                calls.append({'t': 1, 'y': y, 'lb': live, 'la': live, 'retained': 0, 'died': 0})
+                if rnd == 0 and job.get('auto', True):
+                    raised = 'none'
+                    try:
+                        with ses.autoclose():
+                            pass
+                    except Exception as e:  # noqa
+                        raised = type(e).__name__
+                        notes.append('autoclose raised %r' % (e,))
+                    t0 = time.time()
+                    while (alive(child) or any(x.is_alive() for x, _f in others.values())) and time.time() - t0 < 4:
+                        time.sleep(0.005)
+                    after = ([1] if alive(child) else []) + [k for k, (x, _f) in sorted(others.items()) if x.is_alive()]
+                    autos.append({'after': after, 'raised': raised})
+                    for k in [k for k, (x, _f) in others.items() if not x.is_alive()]:
+                        ses.dead_refs.append(weakref.ref(others.pop(k)[0]))
+            for k, (x, f) in others.items():
+                open(f, 'w').close()
+                x.wait(3)
+            finished = True
+        except BaseException as e:  # noqa
+            notes.append('aborted: %r' % (e,))
+    bt = threading.Thread(target=body, name='df-body', daemon=True)
+    bt.start()
+    bt.join(HIST_BOUND)
+    if bt.is_alive():
+        notes.append('hang in the dead-frontend scenario')
+    for pid, start in pids:
+        if start is not None and _proc_start(pid) == start and _os_alive_pid(pid):
+            try:
+                os.kill(pid, signal.SIGKILL)
+            except OSError:
+                pass
+    rec = {'id': str(job['id']), 'scn': {'n': 1 + job.get('others', 0), 'kinds': {'1': 'remote'}, 'dead_frontend': 'T'},
+           'obs': {'calls': calls, 'autos': autos}}
+    return {'id': job['id'], 'rec': rec, 'notes': notes, 'finished': finished, 'reglens': [ses.reglen()], 'restarted': []}
+
+
 def runner_main(jobfile, outfile):
     parent_watchdog()
     with open(jobfile) as f:
@@ -659,6 +747,8 @@ def runner_main(jobfile, outfile):
                 results.append(stress(j, ses))
             elif j.get('type') == 'race':
                 results.append(race(j, ses, tmp))
+            elif j.get('type') == 'deadfront':
+                results.append(dead_frontend(j, ses, tmp))
             elif j.get('type') == 'freshthread':
                 results.append(fresh_thread(j, ses, tmp))
             else:
@@ -756,6 +846,7 @@ def run(prop, tier, replay=None):
              [('prefix', open(os.path.join(tlc.SPEC, 'Registry_prefix.cfg')).read()),
               ('norereg', _cfg('Registry_mc.cfg', inv=['Inv_C19_Exact', 'Inv_C19_Autoclose'], FixRestart='FALSE')),
               ('outsidelock', _cfg('Registry_mc.cfg', inv=['Inv_C19_Exact'], PruneOutsideLock='TRUE')),
+              ('nofinally', _cfg('Registry_mc.cfg', inv=['Inv_C19_Autoclose'], AutoFinally='FALSE')),
               ('weakreg', _cfg('Registry_mc.cfg', inv=['Inv_C19_Exact'], HeldSet='H_both', WeakRegistry='TRUE')),
               ('mc-held', _cfg('Registry_mc.cfg', HeldSet='H_both', MaxSteps=5 if quick else 6)),
               ('W_NoUnheldYielded', _cfg('Registry_mc.cfg', inv=['W_NoUnheldYielded'], HeldSet='H_both'))])
@@ -773,6 +864,10 @@ def run(prop, tier, replay=None):
     ev.add_tlc('exhaustive: the same with workers whose handle the caller drops right after construction (held = FALSE)', rh)
     if rh.error:
         raise MachineryError('Registry.tla (handle-less workers) violates its own properties: %s\n%s' % (rh.error, '\n'.join(rh.trace[:80])))
+    rf = _sr('RegistryMC', cfg_text=_cfg('Registry_mc.cfg', inv=['Inv_C19_Autoclose'], AutoFinally='FALSE'), name='nofinally', must_complete=False)
+    if rf.error != 'invariant:Inv_C19_Autoclose':
+        raise MachineryError('an autoclose block left through an exception without clean-up is not rejected by the model checker: %s' % rf.error)
+    wit['autoclose_without_finally_model'] = rf.error
     rk = _sr('RegistryMC', cfg_text=_cfg('Registry_mc.cfg', inv=['Inv_C19_Exact'], HeldSet='H_both', WeakRegistry='TRUE'), name='weakreg', must_complete=False)
     if rk.error != 'invariant:Inv_C19_Exact':
         raise MachineryError('a registry of weak references (a handle-less live worker vanishes) is not rejected by the model checker: %s' % rk.error)
@@ -825,7 +920,7 @@ def run(prop, tier, replay=None):
         expect[j['id']] = (ys, rl_)
     for h, ys, rl_ in sel:
         add(h, ys, rl_, False)
-    interesting = [p for p in paths if any(s[0] == 'restart' for s in p[0]) or any(s[0] == 'auto' for s in p[0])]
+    interesting = [p for p in paths if any(s[0] == 'restart' for s in p[0]) or any(s[0] in ('auto', 'autoexc') for s in p[0])]
     for h, ys, rl_ in rng.sample(interesting, min(len(interesting), 150 if quick else 1200)):
         add(h, ys, rl_, True)
     # fire-and-forget workers whose liveness does not hang on a thread of this process: process kind, forced
@@ -850,6 +945,8 @@ def run(prop, tier, replay=None):
             for others in (0, 1, 2):
                 jobs.append({'id': 'R%d' % nrace, 'type': 'race', 'action': action, 'others': others, 'moment': 0.15 if quick else 0.3})
                 nrace += 1
+    for k in range(8 if quick else 40):
+        jobs.append({'id': 'D%d' % k, 'type': 'deadfront', 'others': k % 3, 'held': bool(k % 2)})
     for k in range(12 if quick else 60):
         jobs.append({'id': 'F%d' % k, 'type': 'freshthread', 'live': 1 + k % 2, 'dead': 1 + k % 3})
     ev.cov['phase_s']['path_dumps'] = T.s()
@@ -878,7 +975,9 @@ def run(prop, tier, replay=None):
             ('forced race: %s by a second thread while active_children() evaluates is_alive() (%d other live workers); %s'
              % (j['action'], j['others'], res['notes'][-1:]) if j.get('type') == 'race' else
              'active_children()/autoclose in a thread started after %d thread worker(s) finished, %d alive; %s'
-             % (j['dead'], j['live'], res['notes'][:2]) if j.get('type') == 'freshthread' else 'two-caller stress run')
+             % (j['dead'], j['live'], res['notes'][:2]) if j.get('type') == 'freshthread' else
+             'persistent remote worker whose frontend thread died while its remote child keeps serving (+%d thread workers); %s'
+             % (j['others'], res['notes'][:2]) if j.get('type') == 'deadfront' else 'two-caller stress run')
         first = next((c for c in res['rec']['obs']['calls'] if set(c['y']) != set(c['lb'])), None)
         if first is not None:
             first = {k: (v[:8] + ['... %d more' % (len(v) - 8)] if isinstance(v, list) and len(v) > 8 else v) for k, v in first.items()}
